@@ -15,7 +15,9 @@ PROFILE = dict(n_defs=(5, 16), n_txn=(3, 10), n_listen=(1, 4), drops=0.4, gcs=0.
 def gen(tier, seed):
     rng = random.Random(seed * 15485863 + 3)
     n = 500 if tier == "quick" else 15000
-    return [apigen.generate(rng, apigen.profile(**PROFILE)) for _ in range(n)]
+    import apienum
+    return [apigen.generate(rng, apigen.profile(**PROFILE)) for _ in range(n)] + \
+        list(apienum.programs(3 if tier == "thorough" else 2, kinds=apienum.SCHED_KINDS, mode="sched"))
 
 
 def run(scripts, timeout=3000):
